@@ -440,6 +440,32 @@ func unquote(s string) (string, error) {
 	return out, err
 }
 
+// takesGetRequest: fn, or (for a walk whose request fields are handed in one by one) its
+// only static caller, takes the *proto.GetRequest of an index comparison-get.
+func takesGetRequest(fn *ssa.Function) (bool, func()) {
+	has := func(f *ssa.Function) bool {
+		for _, p := range f.Params {
+			if ir.TypeIs(p.Type(), "proto", "GetRequest") {
+				return true
+			}
+		}
+		return false
+	}
+	if has(fn) {
+		return true, func() {}
+	}
+	if site := ir.SingleCallSite(fn); site != nil && has(site.Parent()) {
+		b := ir.Binding{}
+		for i, p := range fn.Params {
+			if i < len(site.Common().Args) {
+				b[p] = site.Common().Args[i]
+			}
+		}
+		return true, ir.Bind(b)
+	}
+	return false, func() {}
+}
+
 func ruleR15c(h *H) {
 	const rule = "R15c"
 	h.Rule(rule, "K5", "index comparison get: every return that hands out a primary key is guarded by strings.HasPrefix(iterator key, prefix of the requested index); index list / range-scan pass bounds built from the requested index name", 3)
@@ -448,15 +474,11 @@ func ruleR15c(h *H) {
 	for _, s := range h.P.AllCalls(ir.InPkg("server"), dbKeyIter) {
 		fn := s.Fn
 		// only the index walk: takes a *proto.GetRequest
-		isGet := false
-		for _, p := range fn.Params {
-			if ir.TypeIs(p.Type(), "proto", "GetRequest") {
-				isGet = true
-			}
-		}
+		isGet, unbind := takesGetRequest(fn)
 		if !isGet {
 			continue
 		}
+		defer unbind()
 		n++
 		h.Fn(ir.FuncName(fn))
 		i := 0
@@ -587,15 +609,11 @@ func ruleR15d(h *H) {
 	dbKeyIter := ir.Callee{Pkg: "server/kv", Recv: "DB", Name: "KeyIterator"}
 	for _, s := range h.P.AllCalls(ir.InPkg("server"), dbKeyIter) {
 		fn := s.Fn
-		isGet := false
-		for _, p := range fn.Params {
-			if ir.TypeIs(p.Type(), "proto", "GetRequest") {
-				isGet = true
-			}
-		}
+		isGet, unbind := takesGetRequest(fn)
 		if !isGet {
 			continue
 		}
+		defer unbind()
 		declared := map[int64]string{}
 		sc := h.P.Package("proto").Types.Scope()
 		for _, nm := range sc.Names() {
@@ -673,15 +691,11 @@ func ruleR15g(h *H) {
 	n := 0
 	for _, s := range h.P.AllCalls(ir.InPkg("server"), dbKeyIter) {
 		walk := s.Fn
-		isGet := false
-		for _, p := range walk.Params {
-			if ir.TypeIs(p.Type(), "proto", "GetRequest") {
-				isGet = true
-			}
-		}
+		isGet, unbind := takesGetRequest(walk)
 		if !isGet {
 			continue
 		}
+		defer unbind()
 		for _, site := range ir.StaticCallSites(walk) {
 			caller := site.Parent()
 			n++
